@@ -22,7 +22,8 @@ EXPLANATION = (
     "returns None, the key, or a child/super/helper keypress result; (5) focus-only routing: in each container keypress the child receiving the key is the focus child; (6) get_focus_path "
     "and set_focus_path walk focus_position and focus.base_widget in the same order; (7) focus moves made by keypress / move_cursor_to_coords in Pile and Columns only land on children whose "
     "selectable() was tested on that path; (9) the focus-tracking list behind Pile/Columns/GridFlow/list walkers keeps its index valid structurally (shared with C16: the focus setter validates and pins the "
-    "empty list to 0, single indices are converted with slice(i, i + 1 or None), every mutator computes the focus before one list call and stores it after); (8) the dict-like Frame.contents does not define __len__/__iter__ through the Mapping mixin methods that are themselves derived from them."
+    "empty list to 0, single indices are converted with slice(i, i + 1 or None), every mutator computes the focus before one list call and stores it after); (10) the widget-API methods of the list containers read focus_position (which raises IndexError when empty, by contract) only where emptiness was excluded, so an empty "
+    "container hands keys back and reports no cursor instead of raising; (8) the dict-like Frame.contents does not define __len__/__iter__ through the Mapping mixin methods that are themselves derived from them."
 )
 NOT_DECIDED = "Validity of the index after arbitrary edit histories (C16's arithmetic), the choice of the arrow-key target, which widgets are rendered with focus=True, ListBox focus bookkeeping."
 ASSUMPTIONS = []
@@ -315,6 +316,51 @@ def rule_selectable_target(ctx: Ctx) -> RuleResult:
     return rr
 
 
+API = ("keypress", "mouse_event", "render", "rows", "pack", "get_cursor_coords", "get_pref_col", "move_cursor_to_coords")
+
+
+def rule_empty_guard(ctx: Ctx, clause="C08.10") -> RuleResult:
+    """focus_position raises IndexError for an empty list container (that is the contract); the widget API of the
+    container itself must therefore not read it unless emptiness was excluded on that path."""
+    p = ctx.p
+    rr = RuleResult("GUARD", clause, "the widget-API methods of Pile / Columns / GridFlow read self.focus_position only where the container is known to be non-empty", floor=6)
+    for cq in LISTS:
+        cls = p.cls(cq)
+        for name in API:
+            fi = cls.methods.get(name)
+            if fi is None:
+                continue
+            cfg = cfg_of(fi)
+            loads = nodes_where(cfg, lambda x: isinstance(x, ast.Attribute) and x.attr == "focus_position" and isinstance(x.ctx, ast.Load) and isinstance(x.value, ast.Name) and x.value.id == fi.self_name)
+            if not loads:
+                continue
+            safe = []
+            for t in cfg.nodes:
+                if t.kind != "test":
+                    continue
+                txt = ast.unparse(t.ast)
+                if txt in ("not self.contents", "not self._contents", "not self.selectable()", "len(self.contents) == 0"):
+                    safe.append((t, "F"))
+                elif txt in ("self.contents", "self._contents", "self.selectable()"):
+                    safe.append((t, "T"))
+            tries = [n for n in ast.walk(fi.node) if isinstance(n, ast.Try) and any(h.type is not None and "IndexError" in ast.unparse(h.type) for h in n.handlers)]
+            first_bad = None
+            for l in sorted(loads, key=lambda n: n.lineno):
+                ok = any(l not in ExcEngine._reach_without_edge(cfg, t, lab) for t, lab in safe)
+                for h in cfg.nodes:
+                    if h.kind == "for" and "contents" in ast.unparse(h.ast.iter) and l is not h and l in cfg.reachable_from_edges([(h, "T")], avoid=[h]) and l not in cfg.reachable([cfg.entry], avoid=[h], include_start=True):
+                        ok = True
+                for tr in tries:
+                    if any(y is l.stmt for x in tr.body for y in ast.walk(x)):
+                        ok = True
+                if not ok and first_bad is None:
+                    first_bad = l
+            rr.inst(f"{short(fi)}", True, {"method": short(fi), "focus_position_reads": len(loads), "guarded": first_bad is None} if len(rr.samples) < 8 else None)
+            if first_bad is not None:
+                rr.add(finding("GUARD", fi, first_bad.stmt, f"`{norm(first_bad.stmt, 60)}` reads self.focus_position on a path where the container may be empty (no `if not self.contents: return ...`, no loop over the contents, no IndexError handler): {cls.name}([]).{name}(...) raises IndexError instead of giving the 'nothing here' answer", construct=f"{name}: focus_position read without emptiness guard"))
+    return rr
+
+
 MAPPING_MIXIN = {"keys", "items", "values", "get", "__contains__", "__eq__", "pop", "popitem", "clear", "update", "setdefault"}
 
 
@@ -357,6 +403,7 @@ def run(ctx: Ctx):
         rule_focus_path(ctx),
         rule_selectable_target(ctx),
         rule_mapping_cycle(ctx),
+        rule_empty_guard(ctx),
     ]
 
 
@@ -376,5 +423,6 @@ MUTANTS = [
     Mut("set-focus-path-descends-first", "urwid/widget/container.py", "WidgetContainerMixin.set_focus_path", "            if p != w.focus_position:\n                w.focus_position = p  # modifies w.focus\n            w = w.focus.base_widget  # type: ignore[assignment]", "            w = w.focus.base_widget  # type: ignore[assignment]\n            if p != w.focus_position:\n                w.focus_position = p  # modifies w.focus", "SIB|widget.container.WidgetContainerMixin.set_focus_path"),
     Mut("frame-contents-keys-unbound", _F, None, "            keys = self._contents_keys\n", "", "ABC|"),
     Mut("gridflow-selectable-delegated", _G, None, "    def selectable(self) -> bool:", "    def _selectable_unused(self) -> bool:", "SIB|"),
+    Mut("columns-keypress-no-empty-guard", _C, "Columns.keypress", "        if not self.contents:\n            return key\n\n        widths, _, size_args", "        widths, _, size_args", "GUARD|widget.columns.Columns.keypress"),
     Mut("twin-pile-setter-reordered", _P, None, "if position < 0 or position >= len(self.contents):\n                raise IndexError(f\"No Pile", "if position < 0 or position >= len(self.contents):  # range\n                raise IndexError(f\"No Pile", twin=True),
 ]
